@@ -43,10 +43,11 @@ PROPERTIES = {
         note='Trusted: Kani 0.68/CBMC; anyhow shim; instantiation T = u8, N in {2,3,4} (loops run over the const generic N with unwinding assertions); other N not covered.',
         out=['quill/src/action/reorder.rs (table construction, remapper, map_with_key_from_result_iter over IndexMap)']),
     'C19': dict(
-        level='proof', verus=['scope'], kani=[],
+        level='proof', verus=['scope'], kani=[], enum=['maven'],
+        explanation='Bounded part (never counted as proved): effective-POM construction, nearest-wins mediation, repository order and coordinate parsing / printing on 750 304 generated cases driven through in-memory POM repositories (kx/enum/maven_group.py lists the universes).',
         technique=VERUS_TECH,
         claim='Unbounded (finite, exhaustive) proof that the nested function the_scope_table equals the scope table of the Maven documentation on every documented cell and cuts provided/test/system dependencies. '
-              'Partial: this is the only function of the resolver within reach; effective-POM construction, nearest-wins mediation (async recursion, HashSet/VecDeque of Strings) and coordinate printing are not under contract.',
+              'Partial: this is the only function of the resolver within reach of the verifier; effective-POM construction, nearest-wins mediation (async recursion, HashSet/VecDeque of Strings) and coordinate printing are covered by the bounded enumeration only.',
         note='Trusted: Verus+Z3; extraction rewrites (serde/default attributes stripped from the enum). The argument order at the call site is not checked.',
         out=['maven_dependency_resolver/src/maven_pom_done.rs', 'clean_up_dependencies / Forest::breadth_first_retain', 'coord.rs printing/parsing', 'call site of the_scope_table in get_dependencies_tree (async)']),
     'C20': dict(
